@@ -337,7 +337,7 @@ class NodeFit(Contract):
         return z(a.dtlr.fields["max_depth"]) - z(a.self.fields["depth"])
 
     def old(self, E, a):
-        return dict(index=a.self.fields["index"], depth=a.self.fields["depth"])
+        return dict(index=a.self.fields["index"], depth=a.self.fields["depth"], tl=len(E.trace), est=a.self.fields["estimator"])
 
     def result(self, E, a, old):
         # at the recursive call sites: the child's own subtree is summarised by the ghost functions of its id
@@ -355,6 +355,11 @@ class NodeFit(Contract):
         E.assume(hiF(pid) == z(res))                        # ghost definition: hi(node) IS the value its (single) fit returns
         E.assume(fit_unfold(E, s, md))                      # definition of the ghost predicate at THIS node (its children are now known)
         out = {"index_and_depth_of_the_node_are_not_changed": z3.BoolVal(s.fields["index"] is old["index"] and s.fields["depth"] is old["depth"])}
+        # whatever stops the growth of the tree here (depth, min_samples_split, min_samples_leaf, a one-sided split), the node that exists
+        # answers predict_proba later: its classifier is fitted, once, on the rows, labels and weights the node was given
+        fits = [t for t in E.trace[old["tl"]:] if t["op"] == "fit" and t["obj"] is old["est"]]
+        out["the_classifier_of_the_node_is_fitted_once_on_the_rows_labels_and_weights_of_the_node"] = z3.BoolVal(
+            s.fields["estimator"] is old["est"] and len(fits) == 1 and fits[0]["X"] is a.X and fits[0]["y"] is a.y and fits[0]["w"] is a.sample_weight)
         ab, be = s.fields.get("above"), s.fields.get("below")
         idx = z(s.fields["index"])
         ub = idx
